@@ -47,7 +47,9 @@ Definition chk_self_calls (c : list (list Q) * list bool * list (list (list Q)) 
   calls_close calls obs tol && match rest with [] => true | _ => false end.
 
 (* the node-carrying model (Model/SelfIsectN.v at Qc): same observation as chk_self - recorded oracle answers in, reported pairs out *)
-From BZ Require Import Model.SelfIsectN.
+From BZ Require Import Model.SelfIsectN Model.Intersect.
+(* add_intersection's notion of a repeated pair, on canonical rationals *)
+Definition dup_qc (p e : Qc * Qc) : bool := is_dup (this (fst p)) (this (snd p)) (this (fst e), this (snd e)).
 Definition qc_pairs (l : list (Q * Q)) : list (Qc * Qc) := map (fun p => (Q2Qc (fst p), Q2Qc (snd p))) l.
 Fixpoint pairs_eqb_qc (m : list (Qc * Qc)) (o : list (Q * Q)) : bool :=
   match m, o with
@@ -57,7 +59,7 @@ Fixpoint pairs_eqb_qc (m : list (Qc * Qc)) (o : list (Q * Q)) : bool :=
   end.
 Definition chk_self_n (c : list (list Q) * list bool * list (list (Q * Q)) * list (Q * Q)) : bool :=
   let '(rows, ang, ints, out) := c in
-  match self_isect_n QcOps Qc_eqb 60 (qcm rows) (mkS ang (map qc_pairs ints)) with
+  match self_isect_n QcOps Qc_eqb dup_qc 60 (qcm rows) (mkS ang (map qc_pairs ints)) with
   | Some (res, calls, st') =>
       pairs_eqb_qc res out && Nat.eqb (List.length calls) (List.length ints) &&
       match anglesN st', isectsN st' with [], [] => true | _, _ => false end
